@@ -934,7 +934,7 @@ def random_cfg(rng, cls):
 
 def random_machine(rng, big=False):
     """the fake machine behind the initial connection: what discover_connections / get_system_info find"""
-    w, h = rng.choice([(2, 2), (8, 8), (12, 12), (24, 12), (12, 24), (20, 16)] if big else [(2, 2), (2, 2), (8, 8), (3, 5)])
+    w, h = rng.choice([(8, 8), (12, 12), (24, 12), (12, 24), (20, 16), (24, 24)] if big else [(2, 2), (2, 2), (8, 8), (3, 5)])
     root = [rng.choice([0, 0, 4, 8, 3]) % w, rng.choice([0, 0, 8, 4, 5]) % h]
     chips = [[x, y] for x in range(w) for y in range(h)]
     pick = lambda pr: [c for c in chips if rng.random() < pr and c != [w - 1, h - 1]]
@@ -947,7 +947,7 @@ def random_machine(rng, big=False):
                     eth.append(e)
     some = lambda pr: [e for e in eth if rng.random() < pr]
     return {"dims": [w, h], "root": root, "dead": pick(0.03), "eth_down": some(0.2), "sver_fail": some(0.2),
-            "info_fail": some(0.15) + pick(0.02)}
+            "info_fail": some(0.15) + pick(0.02), "eth": eth}
 
 
 FAULTS = {
@@ -1056,9 +1056,15 @@ def extra_cases(ctx, rng, reps):
             g.cfg = {"dims": cfg["machine"]["dims"]}      # chips of the machine that will be discovered
             disc, need = g.call("discover_connections", rng.choice(["default", "keyword", "context"]))
             prog = [{"s": "block", "id": g.fresh_id(), "ctx": [[kk, v] for kk, v in need.items()], "body": [disc]}]
-            for _ in range(6):
+            # one command to every Ethernet chip of the machine (over its own connection if it was discovered),
+            # then commands to random chips of the machine
+            targets = [e for e in cfg["machine"]["eth"] if e[0] < cfg["machine"]["dims"][0] and e[1] < cfg["machine"]["dims"][1]][:9]
+            for t in targets + [None] * 4:
+                g.used = set()
                 st, nd = g.call(rng.choice(["read", "write", "get_chip_info", "sdram_alloc", "get_software_version",
                                             "iptag_get", "fill", "load_routing_table_entries"]), "context")
+                if t is not None:
+                    nd["x"], nd["y"] = t
                 prog.append({"s": "block", "id": g.fresh_id(), "ctx": [[kk, v] for kk, v in nd.items()], "body": [st]})
             cases.append({"cls": mc, "cfg": cfg, "init": None, "prog": prog, "depth": 1, "uses_ctx": True,
                           "exc_exit": False, "label": "discover/%d" % k})
